@@ -358,7 +358,9 @@ class RecModel(nn.Module):
         if self.before is not None:
             self.before(k, x)
         if self.events is not None:
-            self.events.add(ev="forward", training=self.training, grad=torch.is_grad_enabled(),
+            modes = [m.training for m in self.modules()]
+            self.events.add(ev="forward", training=self.training, training_all=all(modes), training_any=any(modes),
+                            grad=torch.is_grad_enabled(),
                             n=int(x.shape[0]), rng=torch.get_rng_state() if self.events_rng else None)
         y = self.inner(x)
         if self.recording:
